@@ -368,8 +368,16 @@ impl PreferenceManager {
         // try to find ./Rules/lang/style.yaml and ./Rules/lang/style.yaml
         // we go through a series of fallbacks -- we try to maintain the language if possible
 
+        // "Auto" stands for the language the host has given in LanguageAuto (English before it has given one)
         let language = self.pref_to_string("Language");
-        let language = if language.as_str() == "Auto" {"en"} else {language.as_str()};       // avoid 'temp value dropped while borrowed' error
+        let language_auto = self.pref_to_string("LanguageAuto");
+        let language = if language.as_str() != "Auto" {
+            language.as_str()
+        } else if !language_auto.is_empty() && language_auto != NO_PREFERENCE {
+            language_auto.as_str()
+        } else {
+            "en"
+        };
         let language_dir = rules_dir.to_path_buf().join("Languages");
         self.set_speech_files(&language_dir, language, None)?;  // also sets style file
 
